@@ -183,7 +183,8 @@ def run(ctx):
     c = island.random_instance(rng, fedjax, leaves=2, dyadic=rng.random() < .6, allow_momentum=False, max_clients=5, rounds=rng.choice([2, 3, 4]))
     if c is None or sum(1 for d in c['inst']['data'] if d) < 2:
       continue
-    c['inst']['sopt'] = island.opt_spec('sgd', rng.choice([1, 0.5]))
+    # (a stateful server optimizer makes "a cluster without examples is left untouched" observable: its momentum must not move it)
+    c['inst']['sopt'] = island.opt_spec('sgd', rng.choice([1, 0.5])) if len(hyp_cases) % 2 == 0 else island.opt_spec('mom', rng.choice([1, 0.5]), 0.5)
     nk = rng.choice([2, 3])
     offs = [0.0, 2.0, -2.0][:nk]
     rec = algs.run_rounds(fedjax, 'hyp_cluster', c, clusters=nk, offsets=offs)
@@ -202,7 +203,7 @@ def run(ctx):
     hyp_cases.append((c, nk, rec, insts, assigned))
   flat = [i for (_, _, _, insts, _) in hyp_cases for i in insts]
   if flat:
-    exp = island.oracle(ctx, flat, 'hyp')
+    exp = island.oracle(ctx, flat, 'hyp', extra_consts={'ApplyOnEmpty': False})
     pos = 0
     for (c, nk, rec, insts, assigned) in hyp_cases:
       for kk in range(nk):
